@@ -1,5 +1,7 @@
 import Lean.Data.Json
-import Treepath
+import Treepath.Model.Fns
+import Treepath.Model.Api
+import Treepath.Spec.Has
 /-
 JSON line protocol of the correspondence harness: decoding of documents, paths and the
 closed predicate language; canonical encoding of nodes, events and outcomes.
